@@ -17,7 +17,7 @@ from __future__ import annotations
 import ast
 from typing import Optional
 
-from ..core import AnalysisError, ClassInfo, FuncInfo, norm, self_attr, short, walk_local
+from ..core import AnalysisError, ClassInfo, FuncInfo, ancestors, norm, parents_map, self_attr, short, walk_local
 from ..engine import Engine
 from ..report import Check
 
@@ -149,6 +149,42 @@ def earliest_parent(chk: Check, eng: Engine) -> None:
             raise AnalysisError(f"construct_incomplete_tree: cannot tell how `{short(a, 60)}` selects the parent item")
 
 
+def process_once(chk: Check, eng: Engine, identity_is_finite: bool) -> None:
+    """R06-f.  The work-list argument: every item of a column gets its turn once, in the driver loop over the column, and the completion
+    of an item is triggered by that turn.  With a finite item identity (R06-a) re-completing items from inside a step function would be
+    harmless (the duplicate test stops it - Aycock / Horspool do exactly that for nullable symbols); while the identity includes the children
+    (the recorded finding of R06-a) every re-completion creates items that are new to the column, so termination rests on "once per turn".
+    The rule is armed exactly in that situation: `complete` is called only from a loop over a column, for the loop's own item."""
+    ip = eng.cls(f"{PMOD}.iterative_parser", "IterativeParser")
+    steps = {"predict", "predict_ctx_rule", "scan_bit", "scan_bytes", "scan_regex", "complete", "place_repetition_shortcut"}
+    n = 0
+    for c in [ip] + ip.all_subclasses():
+        for m in c.methods.values():
+            pm = parents_map(m.node)
+            for call in walk_local(m.node):
+                if not (isinstance(call, ast.Call) and isinstance(call.func, ast.Attribute) and call.func.attr == "complete" and self_attr(call.func) == "complete"):
+                    continue
+                n += 1
+                item = call.args[0] if call.args else None
+                turn = None
+                for a in ancestors(pm, call):
+                    if isinstance(a, ast.For) and isinstance(a.target, ast.Name) and isinstance(item, ast.Name) and a.target.id == item.id \
+                            and (isinstance(a.iter, ast.Subscript) or (isinstance(a.iter, ast.Attribute) and a.iter.attr == "states")):
+                        turn = a
+                        break
+                in_step = m.name in steps
+                if turn is not None and not in_step:
+                    chk.ok("R06-f", m.fq, call.lineno, f"`{short(call, 50)}`: completion of the item whose turn it is in `for {item.id} in {short(turn.iter, 30)}`")  # type: ignore[union-attr]
+                elif identity_is_finite:
+                    chk.ok("R06-f", m.fq, call.lineno, f"`{short(call, 50)}` re-completes items outside their turn; harmless while the item identity is finite (R06-a holds)")
+                else:
+                    chk.bad("R06-f", eng.relfile(m), call.lineno, m.fq, f"`{short(call, 60)}` in {m.qualname} completes items outside their own turn in the column loop",
+                            "while ParseState identity includes the children (R06-a), every repeated completion of a nullable symbol adds items the duplicate test has never seen: "
+                            "the column grows without bound (left recursion with a nullable tail, `<e> ::= <e> <args>? | 'f'`, never returns)", keyparts=f"recompletion|{m.qualname}")
+    if n < 3:
+        raise AnalysisError(f"only {n} call(s) of IterativeParser.complete found")
+
+
 def run(chk: Check, eng: Engine) -> None:
     chk.rule("R06-a", "ParseState identity (__hash__/__eq__) reads only fields of finite domain and hash-fields are a subset of eq-fields", floor=3)
     chk.rule("R06-b", "Column.states / Column.unique are mutated only inside Column, and add() appends only behind the membership test", floor=3)
@@ -158,6 +194,7 @@ def run(chk: Check, eng: Engine) -> None:
     chk.not_decided += ["termination of place_repetition_shortcut's upward walk", "termination of context-rule expansion (predict_ctx_rule)",
                         "that the earliest waiting item of a column is always a proper ancestor (Earley prediction order; relied upon by R06-e)"]
     progress_guards(chk, eng)
+    chk.rule("R06-f", "every item is completed in its own turn of the driver loop over its column (armed while the item identity is not finite: then nothing else bounds a column)", floor=3)
     chk.rule("R06-e", "the walk from an item to the item that predicted it takes the *earliest* waiting item of the column (column order is prediction order)", floor=1)
     earliest_parent(chk, eng)
 
@@ -227,6 +264,9 @@ def run(chk: Check, eng: Engine) -> None:
     if ef != other_reads:
         chk.bad("R06-a", file, e.line, e.fq, f"__eq__ compares {sorted(ef)} of self with {sorted(other_reads)} of other",
                 "asymmetric equality breaks set membership", keyparts="eq-asymmetric")
+
+    # R06-f --------------------------------------------------------------------
+    process_once(chk, eng, identity_is_finite=not any(v.rule == "R06-a" for v in chk.violations))
 
     # R06-b --------------------------------------------------------------------
     col = eng.cls(f"{PMOD}.column", "Column")
@@ -355,6 +395,7 @@ _PS = "src/fandango/language/grammar/parser/parse_state.py"
 _COL = "src/fandango/language/grammar/parser/column.py"
 _IP = "src/fandango/language/grammar/parser/iterative_parser.py"
 MUTANTS = [
+    M("late-completion-from-predict", _IP, "            self.predict_ctx_rule(state, table, k, node, nt, hookin_parent)\n", "            self.predict_ctx_rule(state, table, k, node, nt, hookin_parent)\n            return\n        for other in table[k]:\n            if other.position == k and other.nonterminal == symbol and other.finished():\n                self.complete(other, table, k)\n", "R06-f"),
     M("parent-item-by-last-match", _IP, "            for table_state in table[current_state.position].states:\n                if table_state.dot == current_state.nonterminal:\n                    current_state = table_state\n                    found_next_state = True\n                    break\n",
       "            for table_state in table[current_state.position].states:\n                if table_state.dot == current_state.nonterminal:\n                    current_state = table_state\n                    found_next_state = True\n", "R06-e"),
     M("parent-item-through-dict", _IP, "            found_next_state = False\n            for table_state in table[current_state.position].states:\n                if table_state.dot == current_state.nonterminal:\n                    current_state = table_state\n                    found_next_state = True\n                    break\n",
